@@ -162,7 +162,7 @@ func H_C14(name string, c1, c2, c3, dn int) {
 	var ann []string
 	var outc []float64
 	if len(acts) == n {
-		ann = Collect1(strategy.ActionsToAnnotations(Src(acts, 0)))
+		ann = annotationModel(acts)
 		outc = Collect1(strategy.Outcome(Src(fClose(snaps), 0), Src(acts, 0)))
 	}
 	var exp map[string][]float64
@@ -220,6 +220,21 @@ func H_C14(name string, c1, c2, c3, dn int) {
 		}
 	}
 	vrt.Reach("end")
+}
+
+// annotationModel: the documented annotation of an action word, independent of the
+// library's own helpers: the word is normalised (a Buy / Sell counts only when it
+// differs from the last one that counted; a Sell before any Buy does not count) and a
+// counting Buy is annotated "B", a counting Sell "S", everything else "".
+func annotationModel(acts []strategy.Action) []string {
+	out := make([]string, len(acts))
+	last := strategy.Sell
+	for i, a := range acts {
+		take := vrt.Ite(a != strategy.Hold, a != last, false)
+		last = vrt.Ite(take, a, last)
+		out[i] = vrt.Ite(take, vrt.Ite(a == strategy.Buy, "B", "S"), "")
+	}
+	return out
 }
 
 func colLabel(c *colData) string {
@@ -488,5 +503,27 @@ func H_C04S_Tail(name string, c1, c2, c3, dn, cut int) {
 			vrt.AssertAt("causal", k, a[k] == b[k])
 		}
 	}
+	vrt.Reach("end")
+}
+
+// H_C03S_Late: Compute is called before the snapshot producer exists.
+func H_C03S_Late(name string, c1, c2, c3, n int) {
+	st := LookupS(name)
+	cfg := cfg3(c1, c2, c3)
+	s := st.Make(cfg, false)
+	if id := kfS(st.KFOutcome, cfg, n); id != "" {
+		vrt.KnownOutcome(id)
+	}
+	snaps := SymSnapshots("", n)
+	c := make(chan *asset.Snapshot)
+	acts := s.Compute(c)
+	go func() {
+		defer close(c)
+		for _, x := range snaps {
+			c <- x
+		}
+	}()
+	got := Collect1(acts)
+	vrt.Assert("some_actions", len(got) >= 0)
 	vrt.Reach("end")
 }
